@@ -13,7 +13,7 @@ CLAIMS = {
              "exhaustive extraction + translator + exhaustive short-string enumeration against the real productions.",
         note="Trusted: Lean kernel (axioms propext, Classical.choice, Quot.sound), transcription of the W3C ranges "
              "(lean/XmlRsModel/Chars.lean), harness `classes`/`nameok`, tools/translate.py (combinator skeleton; nom "
-             "combinator semantics re-implemented in Peg.lean), generators. QName iff-theorem not yet proved (tie only).",
+             "combinator semantics re-implemented in Peg.lean), generators. QName: `qname_accepts_iff` (the strings the translated `qname` production accepts are exactly Namespaces [7]).",
         technique="Lean 4 proof (omega on extracted range tables; closed forms of translated PEG productions) + exhaustive extraction + translator",
         ref="DESIGN.md section 6 C18"),
     "C16": dict(
